@@ -37,14 +37,22 @@
     CROSSINGS (MultiCrossBlock over plain factors, sustain 1, no preamble): the
     first crossing is sampled, every other one is enforced by the rejection step
     ([combinations_mismatched_weights] on each repetition), which is proved to
-    decide [Sem.crossing_ok] (Random/CrossReject.v, Random/Frag2Cross.v).
+    decide [Sem.crossing_ok] (Random/CrossReject.v, Random/Frag2Cross.v) and
+    IMPLIED FACTORS: derived factors of the design outside [act_design] (nothing
+    uses them; RandomGen does not sample them, [Block.add_implied_levels] adds
+    their levels to every sample): within-trial factors reading factors of
+    [act_design] through a table in which exactly one level accepts every
+    argument tuple.  The frag2 theorems speak about [FragSem.cand_seq]: the
+    candidate's rows plus the implied rows computed by the reference semantics'
+    own [Sem.derive_row]; without implied factors [cand_seq] is [tseq_of_run]
+    ([Frag1Thms.frag1_cand_seq]).
     Missing: crossed
     within-trial derived factors with uncrossed sources, LatinSquare, preambles /
     complex windows / sustained crossings (where the sampled crossing itself is
     checked by rejection).  Outside the fragment the property is decided per run by the
     search of harness/props/c05.py and the C04 harness (exhausted RandomGen vs.
     oracle). *)
-From Coq Require Import List.
+From Coq Require Import ZArith List.
 From SP Require Import Design.Flat Design.Sem Random.Enum Random.Frag Random.FragSem Random.Frag2Thms Random.Frag1Thms
   Random.Frag0Thms Random.Frag0Example.
 
@@ -73,7 +81,7 @@ Proof. split; [apply ex1_frag|]. split; [apply ex1_frag|]. split; [apply ex1_key
 Theorem C04_accept_sound_frag2 : forall (fb : flat), frag2 fb = true ->
   forall (k : key) (cand : candidate),
   In k (keys_of fb) -> decode_key fb k = Some cand -> accepts fb cand = true ->
-  valid_b (code_sem fb) (tseq_of_run fb cand) = true.
+  valid_b (code_sem fb) (cand_seq fb cand) = true.
 Proof. exact f2_accept_sound. Qed.
 Print Assumptions C04_accept_sound_frag2.
 
@@ -92,3 +100,11 @@ Example C04_example_multicross :
   frag2 ex4_flat = true /\ frag1 ex4_flat = false /\ length (keys_of ex4_flat) = 162 /\
   length (accepted_keys ex4_flat) = 36 /\ check_sound ex4_flat = true.
 Proof. split; [exact ex4_frag2|]. split; [exact ex4_frag1|]. split; [exact ex4_nkeys|]. split; [exact ex4_nacc | exact ex4_sound]. Qed.
+
+(** an implied factor: the whole sequence of a candidate has its row *)
+Example C04_example_implied :
+  frag2 ex5_flat = true /\ frag1 ex5_flat = false /\ length (keys_of ex5_flat) = 6 /\ check_sound ex5_flat = true /\
+  option_map (cand_seq ex5_flat)
+    (decode_key ex5_flat {| k_pre := 0%Z; k_rounds := nil; k_left := Some (4%Z, cons 0%Z (cons 0%Z (cons 0%Z nil)), nil) |})
+  = Some (cons (cons (Some 0) (cons (Some 1) (cons (Some 0) nil))) (cons (cons (Some 1) (cons (Some 0) (cons (Some 1) nil))) nil)).
+Proof. split; [exact ex5_frag2|]. split; [exact ex5_frag1|]. split; [exact ex5_nkeys|]. split; [exact ex5_sound | exact ex5_decode]. Qed.
